@@ -1,6 +1,6 @@
 """Sidecar contracts for /repo/tad.py, keyed by qualified name and loop ordinal (DESIGN 2.4).
 Nothing in /repo is annotated; the generator reads the real AST on every run."""
-from pyvc.types import *
+from pyvc.ty import *
 from .tad_spec import *
 
 NODE = REF('Node')
@@ -32,6 +32,17 @@ def contract(name, **kw):
     C['tad.' + name] = kw
 
 
+def VALID(SL):
+    """valid_states (DESIGN 5.1): the node list represents a game: index = position, class tag matches the player
+    string, successors are in range"""
+    return [f"forall(a, 0, len({SL}), {SL}[a].idx == a)",
+            f"forall(a, 0, len({SL}), 0 <= cls({SL}[a]) and cls({SL}[a]) <= 2)",
+            f"forall(a, 0, len({SL}), iff({SL}[a].player == PLAYER_1, cls({SL}[a]) == 1))",
+            f"forall(a, 0, len({SL}), iff({SL}[a].player == PLAYER_2, cls({SL}[a]) == 2))",
+            f"forall(a, 0, len({SL}), iff({SL}[a].player == PROBABILISTIC, cls({SL}[a]) == 0))",
+            f"forall(a, 0, len({SL}), forall(k, 0, len({SL}[a].next_states), 0 <= {SL}[a].next_states[k][1] and {SL}[a].next_states[k][1] < len({SL})))"]
+
+
 # successors of `self` point into state_list
 SUCC_IN_RANGE = "forall(k, 0, len(self.next_states), 0 <= self.next_states[k][1] and self.next_states[k][1] < len(state_list))"
 NS_ = "lcontent(self.next_states)"
@@ -58,7 +69,7 @@ RP01 = "forall(t, 0, len(state_list), 0 <= RP[state_list[t]] and RP[state_list[t
 contract('PlayerOne.get_best_strategies_reachability',
          params={'self': REF('PlayerOne'), 'state_list': SLT, 'floor': INT}, result=LSTR,
          locals={'max_probability': REAL, 'best_strategies': LSTR, 'next_state_reach_probability': REAL},
-         requires=[SUCC_IN_RANGE, "floor == 6", RP01],
+         requires=[SUCC_IN_RANGE, "floor == 6", RP01, "cls(self) == 1"],
          ensures=[f"result == ArgEqR({NS_}, state_list, RP, len(self.next_states), MaxR({NS_}, state_list, RP, len(self.next_states)))"],
          modifies={}, use_axioms=['round6'],
          loops={0: dict(inv=[f"max_probability == MaxR({NS_}, state_list, RP, _i)",
@@ -68,7 +79,7 @@ contract('PlayerOne.get_best_strategies_reachability',
 contract('PlayerTwo.get_worst_strategies_reachability',
          params={'self': REF('PlayerTwo'), 'state_list': SLT, 'floor': INT}, result=LSTR,
          locals={'min_reach_prob': REAL, 'worst_strategies': LSTR, 'next_state_reach_probability': REAL},
-         requires=[SUCC_IN_RANGE, "floor == 6", RP01],
+         requires=[SUCC_IN_RANGE, "floor == 6", RP01, "cls(self) == 2"],
          ensures=[f"result == ArgEqR({NS_}, state_list, RP, len(self.next_states), MinR({NS_}, state_list, RP, len(self.next_states)))"],
          modifies={}, use_axioms=['round6'],
          loops={0: dict(inv=[f"min_reach_prob == MinR({NS_}, state_list, RP, _i)",
@@ -79,7 +90,7 @@ ER_NONNEG = "forall(t, 0, len(state_list), ER[state_list[t]] >= 0)"
 contract('PlayerOne.get_best_strategies_total_rewards',
          params={'self': REF('PlayerOne'), 'state_list': SLT, 'floor': INT}, result=LSTR,
          locals={'max_rewards': REAL, 'best_strategies': LSTR, 'next_state_expected_rewards': REAL},
-         requires=[SUCC_IN_RANGE, "floor == 6", ER_NONNEG],
+         requires=[SUCC_IN_RANGE, "floor == 6", ER_NONNEG, "cls(self) == 1"],
          ensures=[f"result == ArgEqR({NS_}, state_list, ER, len(self.next_states), MaxR({NS_}, state_list, ER, len(self.next_states)))"],
          modifies={}, use_axioms=['round6'],
          loops={0: dict(inv=[f"max_rewards == MaxR({NS_}, state_list, ER, _i)",
@@ -89,7 +100,7 @@ contract('PlayerOne.get_best_strategies_total_rewards',
 contract('PlayerTwo.get_worst_strategies_total_rewards',
          params={'self': REF('PlayerTwo'), 'state_list': SLT, 'floor': INT}, result=LSTR,
          locals={'min_rewards': REAL, 'worst_strategies': LSTR, 'next_state_expected_rewards': REAL},
-         requires=[SUCC_IN_RANGE, "floor == 6"],
+         requires=[SUCC_IN_RANGE, "floor == 6", "cls(self) == 2"],
          ensures=[f"implies(len(self.next_states) == 0, result == ArgEqR({NS_}, state_list, ER, 0, 0))",
                   f"implies(len(self.next_states) > 0, result == ArgEqR({NS_}, state_list, ER, len(self.next_states), MinR0({NS_}, state_list, ER, len(self.next_states))))"],
          modifies={}, use_axioms=['round6'],
@@ -97,3 +108,111 @@ contract('PlayerTwo.get_worst_strategies_total_rewards',
                              f"worst_strategies == ArgEqR({NS_}, state_list, ER, _i, min_rewards)"],
                         use=[f"L_ArgEqR_empty_below0({NS_}, state_list, ER, _i - 1, next_state_expected_rewards)"])},
          props=['C05', 'C13'])
+
+# ------------------------------------------------------------------ per-state strategy tables (C04, C05)
+SL_ = "self.state_list"
+OSTR = OPT(LSTR)
+SOLVER_HEAP = NODE_HEAP + ['state_list', 'threshold', 'floor']
+
+
+def NSOF(a):
+    return f"lcontent({SL_}[{a}].next_states)"
+
+
+def strat_clause(tbl, a, X, maxf, minf):
+    return (f"(implies(cls({SL_}[{a}]) == 1, not isnone({tbl}[{a}]) and some({tbl}[{a}]) == ArgEqR({NSOF(a)}, {SL_}, {X}, len({SL_}[{a}].next_states), {maxf}({NSOF(a)}, {SL_}, {X}, len({SL_}[{a}].next_states))))"
+            f" and implies(cls({SL_}[{a}]) == 2, not isnone({tbl}[{a}]) and {minf})"
+            f" and implies(cls({SL_}[{a}]) == 0, isnone({tbl}[{a}])))")
+
+
+def reach_clause(tbl, a):
+    return strat_clause(tbl, a, 'RP', 'MaxR', f"some({tbl}[{a}]) == ArgEqR({NSOF(a)}, {SL_}, RP, len({SL_}[{a}].next_states), MinR({NSOF(a)}, {SL_}, RP, len({SL_}[{a}].next_states)))")
+
+
+def rew_clause(tbl, a):
+    n_ = f"len({SL_}[{a}].next_states)"
+    return strat_clause(tbl, a, 'ER', 'MaxR', f"(implies({n_} == 0, some({tbl}[{a}]) == ArgEqR({NSOF(a)}, {SL_}, ER, 0, 0)) and implies({n_} > 0, some({tbl}[{a}]) == ArgEqR({NSOF(a)}, {SL_}, ER, {n_}, MinR0({NSOF(a)}, {SL_}, ER, {n_}))))")
+
+
+RP01_S = f"forall(t, 0, len({SL_}), 0 <= RP[{SL_}[t]] and RP[{SL_}[t]] <= 1)"
+ER_NONNEG_S = f"forall(t, 0, len({SL_}), ER[{SL_}[t]] >= 0)"
+for nm, clause, extra in (('_get_reachability_strategies', reach_clause, [RP01_S]), ('_get_total_rewards_strategies', rew_clause, [ER_NONNEG_S])):
+    contract(f'Solver.{nm}', heap=SOLVER_HEAP,
+             params={'self': REF('Solver')}, result=LIST(OSTR),
+             locals={'strategies': LIST(OSTR), 'state': NODE},
+             requires=VALID(SL_) + ["self.floor == 6"] + extra,
+             ensures=[f"len(result) == len({SL_})", f"forall(a, 0, len({SL_}), {clause('result', 'a')})"],
+             modifies={},
+             loops={0: dict(inv=[f"len(strategies) == len({SL_})",
+                                 f"forall(a, 0, _i, {clause('strategies', 'a')})",
+                                 f"forall(a, _i, len({SL_}), isnone(strategies[a]))"])},
+             props=['C04', 'C05', 'C13'])
+
+# ------------------------------------------------------------------ the reachability sweep (C01, C06, C14)  -- DESIGN A.3
+S_ = "states_reaching_final"
+AAR = ARR(INT, AR)
+
+
+def node(q):
+    return f"{SL_}[{S_}[{q}]]"
+
+
+def BRq(q, X):
+    return f"BR(cls({node(q)}), lcontent({node(q)}.next_states), {SL_}, {X})"
+
+
+def wb(q, r):          # object r was written before position q of the sweep
+    return f"exists(p, 0, {q}, {node('p')} == {r})"
+
+
+PROPER_S = (f"forall(a, 0, len({SL_}), implies(cls({SL_}[a]) == 0, forall(k, 0, len({SL_}[a].next_states), prob(lcontent({SL_}[a].next_states)[k]) >= 0)"
+            f" and SumP(lcontent({SL_}[a].next_states), len({SL_}[a].next_states)) == 1))")
+c_inv = f"forall(t, 0, len({SL_}), 0 <= RP[{SL_}[t]] and RP[{SL_}[t]] <= VR[{SL_}[t]])"
+d_inv = f"forall(q, 0, len({S_}), RP[{node('q')}] <= {BRq('q', 'RP')})"
+frame_inv = f"forall(t, 0, len({SL_}), implies(not exists(p, 0, len({S_}), {S_}[p] == t), RP[{SL_}[t]] == old(RP[{SL_}[t]])))"
+
+
+def resid(bound):
+    return f"forall(q, 0, len({S_}), abs(RP[{node('q')}] - {BRq('q', 'RP')}) <= {bound})"
+
+
+def mono_all(A, B):    # instances of the (proved) monotonicity lemma for every state of the sweep
+    return f"forall(q, 0, len({S_}), L_BR_mono(cls({node('q')}), lcontent({node('q')}.next_states), {SL_}, {A}, {B}))"
+
+
+VIR_POST = [c_inv, resid("self.threshold"), frame_inv, f"forall(t, 0, len({SL_}), ERM[{SL_}[t]] == RP[{SL_}[t]])"]
+contract('Solver.value_iteration_reachability', heap=SOLVER_HEAP,
+         params={'self': REF('Solver'), 'states_reaching_final': LIST(INT), 'prune_states': BOOL, 'VR': AR},
+         ghost_params={'VR': 'VR'}, result=INT, opaque=('BR', 'MaxS', 'MinS', 'SumS', 'SumP'),
+         locals={'diff': REAL, 'i': INT, 'max_diff': REAL, 'state_idx': INT, 'state': NODE, 'reach_probability_next': REAL, 'current_diff': REAL},
+         requires=VALID(SL_) + [PROPER_S, f"len({SL_}) >= 1",
+                                f"forall(a, 0, len({S_}), 0 <= {S_}[a] and {S_}[a] < len({SL_}))",
+                                f"forall(a, 0, len({S_}), forall(b, 0, len({S_}), implies(a < b, {S_}[a] < {S_}[b])))",
+                                "self.threshold > 0", "self.threshold < 1",
+                                # VR: any vector that is a fixed point of the Bellman operator on the swept states and bounds RP
+                                # (instantiated with the true value V* by C01; the obligations need nothing else about it)
+                                f"forall(q, 0, len({S_}), VR[{node('q')}] == {BRq('q', 'VR')})",
+                                f"forall(t, 0, len({SL_}), VR[{SL_}[t]] <= 1)",
+                                c_inv, d_inv],
+         ensures=VIR_POST + ["result >= 1", f"not (prune_states and RP[{SL_}[0]] == 0)"],
+         raises=dict(exc=['ValueError'], when=[], ensures=VIR_POST + ["prune_states", f"RP[{SL_}[0]] == 0"]),
+         modifies={'reach_probability': [f"exists(p, 0, len({S_}), {node('p')} == _o)"], 'expected_reach_min_rewards': 'all'},
+         loops={
+             0: dict(inv=[c_inv, d_inv, frame_inv, "diff >= 0", "i >= 0", "implies(i == 0, diff == 1)", f"implies(i >= 1, {resid('diff')})",
+                          f"forall(r, implies(not exists(p, 0, len({S_}), {node('p')} == r), RP[r] == old(RP[r])))"],
+                     ghost_decl=[('x_old', AR), ('snap', AAR)], ghost_mod=[('x_old', AR), ('snap', AAR)],
+                     ghost_pre=[('x_old', AR, 'RP')], heap_mod=['reach_probability'],
+                     use={6: [f"forall(q, 0, len({S_}), L_BR_lip(cls({node('q')}), lcontent({node('q')}.next_states), {SL_}, snap[q], RP, max_diff))"]}),
+             1: dict(inv=[f"forall(r, implies(not {wb('_i1', 'r')}, RP[r] == x_old[r]))",
+                          f"forall(q, 0, _i1, abs(RP[{node('q')}] - x_old[{node('q')}]) <= max_diff)",
+                          f"forall(q, 0, _i1, RP[{node('q')}] == {BRq('q', 'snap[q]')})",
+                          f"forall(q, 0, _i1, forall(r, snap[q][r] == (RP[r] if {wb('q', 'r')} else x_old[r])))",
+                          c_inv, d_inv, "max_diff >= 0"],
+                     ghost_mod=[('snap', AAR)], ghost_pre=[('snap', AAR, 'store(snap, _i1, RP)')],
+                     ghost_post=[],
+                     hint_pre=[f"forall(p, 0, len({S_}), {node('p')}.idx == {S_}[p])",
+                               f"forall(p, 0, len({S_}), forall(p2, 0, len({S_}), implies(p < p2, {node('p')} != {node('p2')})))"],
+                     use={4: [f"L_BR_mono(cls({node('_i1 - 1')}), lcontent({node('_i1 - 1')}.next_states), {SL_}, snap[_i1 - 1], VR)"],
+                          5: [mono_all('snap[_i1 - 1]', 'RP')]}),
+             2: dict(inv=[f"forall(t, 0, _i2, ERM[{SL_}[t]] == RP[{SL_}[t]])"])},
+         props=['C01', 'C02', 'C04', 'C06', 'C14', 'C13'])
